@@ -22,7 +22,7 @@ LEVEL_TEXT = ("Lean theorems: (1) FORWARD SIMULATION definitional semantics => m
               "Outside the proved fragments (a named literal referring to itself from inside a larger expression; literals in top-level blocks using block-scoped globals - U1; stop/volgende under pending operands, where the property is false - finding K3; the machine's 65535-slot/frame limit) the property is decided by the correspondence: "
               "the real eval (value, printed output, error kind) against the definitional evaluator Spec.evalProgram on bounded-exhaustive, boundary and type-directed random programs, and against the machine model (steps, stack at Halt, collections). SESSION 7: DIVERGENCE PRESERVATION for stages 3, 6 and 7 (C01_control_flow_divergence, C01_heap_and_calls_divergence, C01_nested_functions_divergence): a text of the syntactic fragment whose definitional evaluation runs out of every fuel exhausts every instruction budget on the machine (or, with calls, stops for good at the machine's stack/frame limit, reported as an index error) - by a second induction on the fuel, parallel to the forward simulation, with the quantitative bound 'out of fuel with fuel f => at least (f + K - d)/K further instructions'; and the CONVERSE of the forward theorems (C01_*_machine_answer_is_definitional): whatever the machine answers within some budget - other than the limit - is the definitional answer for some fuel (or the text is one of the unspecified behaviours, witness C01_converse_needs_unspec); non-vacuity: three programs proved divergent for every fuel, and the counting loop proved NOT divergent (it ends in the range error).")
 LEVEL_NOTE = ("Trusted: Lean kernel (axioms propext, Classical.choice, Quot.sound); the hand-written model is tied to the code by the correspondence only; harness/driver I/O; Rust std. "
-              "Partial: the simulation theorem covers the whole language except self-referring named literals inside larger expressions, U1 and K3 shapes (where the property is false); divergence preservation (a program that runs forever in the semantics runs forever on the machine) is not proved; the resolver part (R1) is proved for the control-flow fragment, the whole function-free language (stage 5), the syntactic function fragment (stage 4) the stage-6 fragment and the stage-7 class (nested literals at top level outside blocks and anywhere inside bodies); outside those syntactic fragments the end-to-end theorems go through the proved-sound per-program validation (inFragment / inFragmentH).")
+              "Partial: the simulation theorem covers the whole language except self-referring named literals inside larger expressions, U1 and K3 shapes (where the property is false); divergence preservation is proved for stages 3, 6, 7 and 8 (session 7) with the machine's limit as a disjunct once calls exist; the resolver part (R1) is proved for the control-flow fragment, the whole function-free language (stage 5), the syntactic function fragment (stage 4) the stage-6 fragment and the stage-7 class (nested literals at top level outside blocks and anywhere inside bodies); outside those syntactic fragments the end-to-end theorems go through the proved-sound per-program validation (inFragment / inFragmentH).")
 TECHNIQUE = 'Lean 4 proof (forward simulation definitional semantics => bytecode machine by induction on fuel; fuel/budget monotonicity) + differential correspondence eval vs Spec.eval vs machine model'
 RULE = ("programs: (a) bounded-exhaustive over the template grammar of checklib/enum.py, (b) type-directed "
         "random programs (checklib/gen.py) of 5-60 nodes, (c) the repository's examples/*.nl; a case is "
